@@ -28,7 +28,7 @@ def _tree_size(e):
 
 
 def build(case):
-    tabs = rel.make_tables(case["dseed"])
+    tabs = rel.make_tables(case["dseed"], nrows=tuple(case.get("nrows", (9, 7))))
     env = rel.dask_sources(tabs, {"T1": ("from_pandas", case["np1"]), "T2": ("from_pandas", case["np2"])})
     return rel.build(case["q"], env, "dask")
 
@@ -81,18 +81,24 @@ def replay(case):
     try:
         r1 = rel.observe(lambda: rel.run_compute(coll))
         o2 = opt.optimize()
+        # both the optimized collection itself and the twice-optimized one must compute what the query computes
+        r1b = rel.observe(lambda: opt.compute(scheduler="sync"))
         r2 = rel.observe(lambda: o2.compute(scheduler="sync"))
-        rel.finalize([r1, r2])
+        rel.finalize([r1, r1b, r2])
         ordered = case["sc"]["ord"]
-        if not r2["ok"] and r1["ok"]:
+        # the unoptimized lowering computed (checked above): none of the optimized executions may fail
+        bad = next((r for r in (r1, r1b, r2) if not r["ok"]), None)
+        if bad is not None:
             tr["idem"] = [True, False]
-            tr["msg"] = "re-optimized: " + r2.get("err", "") + ": " + r2.get("msg", "")[:160]
+            tr["msg"] = "re-optimized: " + bad.get("err", "") + ": " + bad.get("msg", "")[:160]
         elif r1["ok"]:
-            a, b = r1["t"]["rows"], r2["t"]["rows"]
-            if not case["sc"]["idx"]:
-                a, b = [x[1:] for x in a], [x[1:] for x in b]
-            same = (a == b) if ordered else (sorted(a) == sorted(b))
-            tr["idem"] = [False, bool(same and r1["t"]["cols"] == r2["t"]["cols"])]
+            same = True
+            for r in (r1b, r2):
+                a, b = r1["t"]["rows"], r["t"]["rows"]
+                if not case["sc"]["idx"]:
+                    a, b = [x[1:] for x in a], [x[1:] for x in b]
+                same = same and ((a == b) if ordered else (sorted(a) == sorted(b))) and r1["t"]["cols"] == r["t"]["cols"]
+            tr["idem"] = [False, bool(same)]
         tr["reopt_same_plan"] = (o2._name == name0)
     except Exception as ex:
         tr["idem"] = [True, False]
@@ -174,6 +180,26 @@ def run(tier="quick", seed=0, replay_path=None):
         qs += [c for c in rel.gen_queries("filter", 2, seed=seed + 1, sample=t["fsample"], sim_num=t["sim_num"], sim_depth=t["sim_depth"], chk=chk,
                                           keep=lambda c: c["q"]["op"] == "filter" and c["q"]["c"][0]["op"] == "merge" and c["q"]["pred"]["p"] == "and") if c["depth"] >= 2]
         cases = [{"q": c["q"], "sc": c["sc"], "dseed": rnd.randrange(5), "np1": rnd.choice([2, 3]), "np2": rnd.choice([1, 2])} for c in qs]
+        # head / tail over operators that are not elementwise in the logical plan but lower to their elementwise input
+        # (a repartition to the same partition count), with the npartitions values head accepts
+        src = {"op": "src", "t": "T1"}
+        inner = [{"op": "elem", "f": "add1", "c": [src]}, {"op": "assign", "col": "z", "e": {"x": "bin", "f": "add", "l": {"x": "col", "col": "a"}, "r": {"x": "lit", "v": 1}}, "c": [src]},
+                 {"op": "elem", "f": "add1", "c": [{"op": "proj", "cols": ["a", "b"], "c": [src]}]}, {"op": "filter", "pred": {"p": "cmp", "f": "gt", "col": "a", "v": 0}, "c": [src]}]
+        for e in inner:
+            for np1 in (2, 3, 5):
+                for k in (1, 2, -1):
+                    for top in ("head", "tail"):
+                        if top == "tail" and k != 1:
+                            continue
+                        q = {"op": top, "n": 3, "c": [{"op": "repart", "n": np1, "c": [e]}]}
+                        if top == "head":
+                            q["k"] = k
+                        sc = {"kind": "frame", "cols": [], "ord": True, "idx": True, "nsrc": 1, "name": "", "closed": False, "tainted": False}
+                        cases.append({"q": q, "sc": sc, "dseed": 1, "np1": np1, "np2": 1})
+                        if top == "head" and np1 == 5:
+                            # many partitions, more rows requested than the selected partitions' first one holds
+                            q2 = {"op": "head", "n": 12, "k": k, "c": [{"op": "repart", "n": 10, "c": [e]}]}
+                            cases.append({"q": q2, "sc": sc, "dseed": 1, "np1": 10, "np2": 1, "nrows": [40, 7]})
     for i, c in enumerate(cases):
         c["tid"] = i
     common.assert_repo()
